@@ -6,7 +6,8 @@ NEEDS_KNUT = True
 RULE = ("generated accepted journals (5 account types, 2-4 commodities with direct/inverse/chained prices and several price "
         "changes, accruals, assertions, open/close) plus the variations that matter for the emitted ledger: the user's journal "
         "opens (early / late / opens and closes) the Income:... account that Valuate posts to; accounts below Equity:Valuation:; "
-        "an account closed and opened again; V itself held; V with digits or multi-byte letters; V without prices; no -v. "
+        "an account closed and opened again; V itself held; V with digits or multi-byte letters; V without prices; no -v; "
+        "descriptions that span several lines (continuation lines that imitate a blank line, a posting, a directive). "
         "`knut transcode -v V FILE` on each; the model's text must be byte-identical, and the executable statement "
         "(Spec.BeancountSpec.c16_verdict: reader of the text, every transaction sums to exactly zero in one commodity, dates "
         "never go back, every posted account has an open directive in force and no earlier close, the transactions are the "
@@ -39,9 +40,31 @@ LEVEL_TEXT = ("C16_balanced, C16_chronological, C16_complete, C16_open_before_us
               "an asset/liability account, value adjustments included, has an open directive in force and no earlier close; "
               "C16_valuation_open_refuted: the clause 'every posted account has an open directive' is FALSE for the accounts "
               "Valuate posts value adjustments to (Income:...; Transcode tests the stale prefix Equity:Valuation:) -- known "
-              "finding F16, pinned by testdata/transcode/example.golden.")
+              "finding F16, pinned by testdata/transcode/example.golden. "
+              "Reader/writer round trip: C16_text_roundtrip -- for every valuation commodity and every list of items that satisfy the "
+              "lexical side conditions (Spec/BeancountLex.v commodity_lex_b, entries_lex_b: years 0000..9999, account names non-empty "
+              "without space/newline/double quote, descriptions without double quote, newlines allowed) the reader applied to the "
+              "writer's text returns V as written and the erased items with every amount as it is after Decimal.String "
+              "(DecNormalForm.reread; with the amounts themselves the statement is false: C16_text_roundtrip_exact_refuted); "
+              "C16_emitted_items_lexical: the items of `knut transcode` satisfy the conditions whenever the journal's directives do "
+              "(journal_lex_b); C16_model_text_roundtrip / C16_roundtrip_check: roundtrip_b is a theorem; C16_verdict_on_model_text: "
+              "the verdict on the model's own text equals verdict_of (beancount_check ++ complete_check ++ mtm_check) on the erased "
+              "items, the objects of the theorems above; C16_model_verdict_partial: on them mtm_check finds nothing and every violation "
+              "of beancount_check is a posting violation raised by a posting of a value adjustment on a non-A/L account (F16/F16b's "
+              "Income:... account). C16_linewise_reader_refuted: the former line-wise reader rejected the correct ledger of a journal "
+              "whose description contains a newline (knut accepts it); read_ledger now splits lines outside double-quoted strings only.")
 LEVEL_NOTE = ("Trusted: kernel, extraction, harness; the model-to-code tie is sampled (quick ~300 journals). The theorems are about the "
-              "emitted items; that the text reads back to those items is checked on every case (roundtrip_b), not proved. "
+              "emitted items; that the text reads back to those items is proved (C16_text_roundtrip, C16_model_text_roundtrip) under "
+              "lexical side conditions on the journal (journal_lex_b, weaker than what knut's parser guarantees; stronger than "
+              "postings_syntactic, which allows a space inside an account segment: C16_space_in_account_example) and on V "
+              "(commodity_lex_b); the driver evaluates the side conditions on every case and falls back to the executable test "
+              "roundtrip_b only outside them (no generated case is). Amounts are read back up to Decimal.String (reread: same value); "
+              "no clause of the verdict can tell (Proofs/BeancountVerdict.v). Not proved: that the verdict on the model's text is "
+              "`ok` or F16/F16b's known shape for every journal (full statement in the comment at C16_model_verdict_partial): open are "
+              "that check_posting classifies the remaining violations as the known shape and that complete_check finds nothing; both "
+              "are evaluated per case on the binary's byte-identical output. Two repairs of the executable verdict came out of the "
+              "proof: multi-line descriptions (split_lines; the generator now writes them) and the order clause for ledgers of the "
+              "year 0000 (bst_init, C16_order_year0_example). "
               "Side condition of the mark-to-market theorems: account names as the parser guarantees them (postings_syntactic). "
               "The truncation steps are counted inside [first directive date, last directive date] (year-0000 dates are negative "
               "day numbers: C16_mtm_year0_example). "
@@ -72,7 +95,8 @@ def nontrivial(c):
 
 def distribution(cases):
     d = {"ok": 0, "err": 0, "panic": 0, "with_adjustments": 0, "no_val": 0, "val": {}, "user_opens_valuation_account": 0,
-         "equity_valuation_account": 0, "reopened": 0, "duplicate_open_lines": 0, "nonascii_or_digit_V": 0, "accrual": 0}
+         "equity_valuation_account": 0, "reopened": 0, "duplicate_open_lines": 0, "nonascii_or_digit_V": 0, "accrual": 0,
+         "multiline_description": 0}
     for c in cases:
         o = c.observed or ""
         d["ok" if o.startswith("OK") else ("panic" if o.startswith("PANIC") else "err")] += 1
@@ -87,6 +111,9 @@ def distribution(cases):
         d["equity_valuation_account"] += "Equity:Valuation:" in c.input
         d["reopened"] += "Assets:Reopened" in c.input
         d["accrual"] += "accrue=" in c.input
+        d["multiline_description"] += any(
+            p.startswith("T ") and len(p.split()) > 2 and "0a" in [p.split()[2][k:k + 2] for k in range(0, len(p.split()[2]), 2)]
+            for p in c.input.split(" | ", 1)[-1].split(" ; "))
         if o.startswith("OK "):
             opens = [l for l in o.split("\\n") if " open " in l]
             d["duplicate_open_lines"] += len(opens) != len(set(opens))
